@@ -126,3 +126,13 @@ pub use crate::{
 /// in the future.
 #[deprecated(since = "0.8.0", note = "renamed to `World`")]
 pub type Resources = World;
+
+/// Verification hooks (feature `verif-hooks`): re-exports of crate-private
+/// planner/executor types plus the thin forwarding accessors defined next to
+/// them. Nothing here changes behaviour; with the feature off it does not
+/// exist.
+#[cfg(feature = "verif-hooks")]
+#[allow(missing_docs)]
+pub mod verif_hooks {
+    pub use crate::dispatch::verif_reexports::*;
+}
